@@ -1,9 +1,11 @@
 (* C07 - compilation never crashes or hangs (partial: the part that is logic).  Statements only. *)
-From Sakura.Model Require Import Base Cursor Length Event Writer.
-From Sakura.Gen Require Import Consts.
+From Coq Require Import String.
+From Sakura.Model Require Import Base Cursor Length Event Writer Token LexCore.
+From Sakura.Gen Require Import Consts VarRows.
 From Sakura.Spec Require Import TrackSpec.
-From Sakura.Proofs Require Import WriterP NumeralP.
+From Sakura.Proofs Require Import WriterP NumeralP TermP.
 From Coq Require Import Lia.
+Open Scope Z_scope.
 
 (* Every numeral read from ANY text - decimal, "0o" octal, "$" / "0x" hexadecimal, with or without a sign, however many
    digits - lies within +-NUMERAL_MAX (2^31-1, generated from source_cursor.rs) unless the reader returns its default:
@@ -30,7 +32,81 @@ Theorem C07_writer_total : forall evs : list event,
   forallb event_ok evs = true -> exists bs, write_events 0 evs = Ok bs.
 Proof. intros evs H. eexists. apply write_events_wire. exact H. Qed.
 
+(* ---- the lexer (model/LexCore.v: lex, every reader, every arm of the loop, the blocks lexed recursively) terminates and
+        never panics.  `lex ls src ln` runs lex_f with fuel S (length src); OutOfFuel would mean that fuel is not enough.
+
+   The premise `lex_safe ls src` (a computable test) concerns ONE arm, Rhythm{...}: it lexes the EXPANSION of its block by
+   the rhythm macros, which is not a part of the source.  Either
+     (1) every text in the rhythm table is inert - none of its characters is (after zen2han) '{', 'S', 'D', 'R' or '$' - and
+         the source holds no '$' (it defines no rhythm macro; the built-in table is inert, C07_builtin_rhythm_inert), or
+     (2) the source holds no 'R' / full-width 'R' (no spelling of Rhythm can be written).
+   Every other arm is covered without any condition.  Without the premise the statement is false
+   (C07_lex_terminates_refuted): a rhythm macro whose text calls Rhythm on itself is unbounded user recursion. ---- *)
+Theorem C07_lex_terminates_partial : forall (ls : lexstate) (src : list Z) (ln : Z),
+  lex_safe ls src = true ->
+  lex ls src ln <> OutOfFuel /\ (forall site, lex ls src ln <> Panic site).
+Proof. exact lex_terminates. Qed.
+
+(* the same for any fuel above the number of characters that can open a recursive lex ('{' 'S' 'D' 'R'), in particular for any
+   fuel above the length of the source *)
+Theorem C07_lex_f_terminates_partial : forall (fuel : nat) (ls : lexstate) (src : list Z) (ln : Z),
+  lex_safe ls src = true -> (nest_measure src < fuel)%nat ->
+  lex_f fuel ls src ln <> OutOfFuel /\ (forall site, lex_f fuel ls src ln <> Panic site).
+Proof. exact lex_f_terminates. Qed.
+Theorem C07_lex_f_terminates_length : forall (fuel : nat) (ls : lexstate) (src : list Z) (ln : Z),
+  lex_safe ls src = true -> (length src < fuel)%nat ->
+  lex_f fuel ls src ln <> OutOfFuel /\ (forall site, lex_f fuel ls src ln <> Panic site).
+Proof. exact lex_f_terminates_length. Qed.
+
+(* from the initial lexer state (model/Compile.v): every source without '$' *)
+Theorem C07_lex_terminates_initial : forall (src : list Z) (ln : Z),
+  forallb nodollar src = true ->
+  lex (mkLex 96 [] init_vars rhythm_rows) src ln <> OutOfFuel /\
+  (forall site, lex (mkLex 96 [] init_vars rhythm_rows) src ln <> Panic site).
+Proof. exact lex_terminates_initial. Qed.
+Theorem C07_builtin_rhythm_inert : tbl_inert rhythm_rows = true.
+Proof. exact builtin_rhythm_inert. Qed.
+
+(* premise (1) is kept by the lexer: it leaves the rhythm table as it was, so the next lex on the same state (a PLAY part,
+   a second compile) starts from a table that is still inert *)
+Theorem C07_lex_keeps_rhythm_table : forall (ls : lexstate) (src : list Z) (ln : Z) (toks : list tok) (ls' : lexstate),
+  tbl_inert (lx_rhythm ls) = true -> forallb nodollar src = true -> lex ls src ln = Ok (toks, ls') ->
+  lx_rhythm ls' = lx_rhythm ls.
+Proof. exact lex_keeps_rhythm_table. Qed.
+
+(* every reader gives back a SUFFIX of the text it was given and needs no more fuel than its caller passes; three of them *)
+Theorem C07_reader_suffix : forall (tb : Z) (s : list Z) (ln : Z),
+  (exists p, s = p ++ snd (fst (read_note 99 s ln))) /\
+  match read_note_n tb s ln with Ok x => exists p, s = p ++ snd (fst x) | Unsupported _ => True | _ => False end /\
+  match read_arg_value (arg_fuel s) tb s ln with Ok x => exists p, s = p ++ snd (fst x) | Unsupported _ => True | _ => False end.
+Proof. intros tb s ln. exact (conj (read_note_sfx 99 s ln) (conj (read_note_n_ok tb s ln) (read_arg_value_arg tb s ln))). Qed.
+
+(* the unconditional statement is false: `$a{Rhythm{a}} Rhythm{a}` from the initial state ... *)
+Theorem C07_lex_terminates_refuted : exists (ls : lexstate) (src : list Z) (ln : Z), lex ls src ln = OutOfFuel.
+Proof. exists ls0, rhythm_recursion_src, 0. exact lex_rhythm_recursion. Qed.
+(* ... and it is the recursion, not the amount of fuel: no fuel is enough (the implementation overflows its stack) *)
+Theorem C07_lex_rhythm_recursion_diverges : forall fuel : nat,
+  lex_f fuel (mkLex 96 [] init_vars rhythm_rows) (zs "$a{Rhythm{a}} Rhythm{a}") 0 = OutOfFuel.
+Proof. exact lex_rhythm_recursion_diverges. Qed.
+
+(* the premise is met by an ordinary program: a macro, a loop, a Sub block, a Rhythm block with built-in macros, a tuplet,
+   a reservation, a chord; it lexes to more than 10 tokens *)
+Example C07_lex_premise_example :
+  let src := zs "#A={c d} [2 c8 Sub{d4 r} #A] Rhythm{bshb} {ceg}4 TR(2) v.onTime(0,127,!1) 'ce'" in
+  lex_safe (mkLex 96 [] init_vars rhythm_rows) src = true /\
+  exists toks ls', lex (mkLex 96 [] init_vars rhythm_rows) src 0 = Ok (toks, ls') /\ (length toks > 10)%nat.
+Proof. exact (conj example_safe example_lexes). Qed.
+
 Print Assumptions C07_numerals_bounded.
 Print Assumptions C07_hex_numerals_bounded.
 Print Assumptions C07_saturation_is_cap.
 Print Assumptions C07_writer_total.
+Print Assumptions C07_lex_terminates_partial.
+Print Assumptions C07_lex_f_terminates_partial.
+Print Assumptions C07_lex_f_terminates_length.
+Print Assumptions C07_lex_terminates_initial.
+Print Assumptions C07_builtin_rhythm_inert.
+Print Assumptions C07_lex_keeps_rhythm_table.
+Print Assumptions C07_reader_suffix.
+Print Assumptions C07_lex_terminates_refuted.
+Print Assumptions C07_lex_rhythm_recursion_diverges.
